@@ -3,6 +3,7 @@ CONSTANTS
  Callers <- K2
  Mode = "closed"
  ReCheck = TRUE
+ OwnStart = TRUE
  D7Stutter = FALSE
 INVARIANT ClosedRaises
 PROPERTY Completes
